@@ -9,6 +9,8 @@ A small fixed family of mapped classes in a private ``registry()``:
 * ``Parent.tags``                                many-to-many through ``parent_tag`` (no backref)
 * ``Parent.owner`` / ``Owner.parents``           many-to-one with the one-to-many as reverse side
 * ``Parent.profile`` / ``Profile.parent``        one-to-one (scalar on the Parent side, foreign key on Profile; default cascade)
+* ``Parent.notes``                               unidirectional one-to-many (Note has no relationship back; cascade is a parameter)
+* ``Item`` / ``SubItem(Item)``                   joined-table inheritance pair, unrelated to the rest (C46)
 
 The cascade setting of the four "forward" relationships (children, grandchildren,
 tags, owner) is a parameter; one mapping is built and cached per distinct
@@ -49,8 +51,8 @@ def norm_cascade(opts) -> str:
 class Family:
     """one configured mapping (classes + metadata)"""
 
-    def __init__(self, c_children, c_grandchildren, c_tags, c_owner):
-        self.cascades = {"children": c_children, "grandchildren": c_grandchildren, "tags": c_tags, "owner": c_owner}
+    def __init__(self, c_children, c_grandchildren, c_tags, c_owner, c_notes=DEFAULT_CASCADE):
+        self.cascades = {"children": c_children, "grandchildren": c_grandchildren, "tags": c_tags, "owner": c_owner, "notes": c_notes}
         reg = registry()
         self.reg = reg
         md = reg.metadata
@@ -98,6 +100,8 @@ class Family:
                 tags = rel("Tag", c_tags, secondary=parent_tag, order_by="Tag.id", _needs_single_parent=True)
                 # one-to-one seen from the one-to-many direction (scalar on the side that does not hold the foreign key)
                 profile = relationship("Profile", back_populates="parent", uselist=False)
+                # unidirectional one-to-many: Note has no relationship back to Parent
+                notes = rel("Note", c_notes, order_by="Note.id")
                 owner = rel("Owner", c_owner, back_populates="parents", _needs_single_parent=True)
 
                 def __repr__(self):
@@ -139,6 +143,35 @@ class Family:
                     return f"Profile#{self.__dict__.get('id')}"
 
             @reg.mapped
+            class Note:
+                __tablename__ = "note"
+                id = Column(Integer, primary_key=True)
+                parent_id = Column(ForeignKey("parent.id"))
+                x = Column(Integer)
+
+                def __repr__(self):
+                    return f"Note#{self.__dict__.get('id')}"
+
+            # joined-table inheritance pair (used by C46: a base-class query's row lacks the subclass table's columns)
+            @reg.mapped
+            class Item:
+                __tablename__ = "item"
+                id = Column(Integer, primary_key=True)
+                kind = Column(String)
+                a = Column(Integer)
+                __mapper_args__ = {"polymorphic_on": kind, "polymorphic_identity": "item"}
+
+                def __repr__(self):
+                    return f"{type(self).__name__}#{self.__dict__.get('id')}"
+
+            @reg.mapped
+            class SubItem(Item):
+                __tablename__ = "subitem"
+                id = Column(ForeignKey("item.id"), primary_key=True)
+                s = Column(Integer)
+                __mapper_args__ = {"polymorphic_identity": "sub"}
+
+            @reg.mapped
             class Tag:
                 __tablename__ = "tag"
                 id = Column(Integer, primary_key=True)
@@ -148,14 +181,14 @@ class Family:
                     return f"Tag#{self.__dict__.get('id')}"
 
             self.Owner, self.Parent, self.Child, self.Grandchild, self.Tag = Owner, Parent, Child, Grandchild, Tag
-            self.Profile = Profile
-            self.classes = {"owner": Owner, "parent": Parent, "child": Child, "grandchild": Grandchild, "tag": Tag, "profile": Profile}
+            self.Profile, self.Note, self.Item, self.SubItem = Profile, Note, Item, SubItem
+            self.classes = {"owner": Owner, "parent": Parent, "child": Child, "grandchild": Grandchild, "tag": Tag, "profile": Profile, "note": Note}
             reg.configure()
 
 
-def family(children=None, grandchildren=None, tags=None, owner=None) -> Family:
+def family(children=None, grandchildren=None, tags=None, owner=None, notes=None) -> Family:
     """cached mapping for the given cascade settings (None = library default)"""
-    key = (norm_cascade(children), norm_cascade(grandchildren), norm_cascade(tags), norm_cascade(owner))
+    key = (norm_cascade(children), norm_cascade(grandchildren), norm_cascade(tags), norm_cascade(owner), norm_cascade(notes))
     fam = _CACHE.get(key)
     if fam is None:
         fam = Family(*key)
@@ -177,6 +210,9 @@ TABLE_COLS = {
     "tag": ("id", "name"),
     "parent_tag": ("parent_id", "tag_id"),
     "profile": ("id", "parent_id", "x"),
+    "note": ("id", "parent_id", "x"),
+    "item": ("id", "kind", "a"),
+    "subitem": ("id", "s"),
 }
 
 
